@@ -723,16 +723,34 @@ def fit_open_bound(ctx, par):
 
 
 # --- custom bounds ----------------------------------------------------------------------------------
-@contract(P, "fit_variogram/custom-bounds", params=[{"sill": s, "k": k} for s in ("none", "given") for k in (1, 2)],
+@contract(P, "fit_variogram/custom-bounds",
+          params=[{"sill": s, "k": k, "sel": "all-fit"} for s in ("none", "given") for k in (1, 2)] +
+                 [{"sill": "given", "k": 1, "sel": sl} for sl in ("var:off,nug:off", "var:off", "nug:off")],
           functions=FN + ["covmodel/base.py:CovModel.set_arg_bounds"], nsamples=3, search=40, timeout=20)
-def fit_custom_bounds(ctx, sill, k):
-    """user bounds set through CovModel.set_arg_bounds (documented in the Notes of fit_variogram)"""
+def fit_custom_bounds(ctx, sill, k, sel):
+    """user bounds set through CovModel.set_arg_bounds (documented in the Notes of fit_variogram); with a prescribed
+    sill and deselected variance / nugget the split of the sill respects the (non-zero) lower nugget bound"""
+    seld = {"all-fit": {}, "var:off,nug:off": {"var": "off", "nugget": "off"}, "var:off": {"var": "off"},
+            "nug:off": {"nugget": "off"}}[sel]
     def pre(model):
         _q(model.set_arg_bounds, var=[0.1, 5.0], len_scale=[0.2, 10.0, "cc"], nugget=[0.05, 0.5, "cc"])
+        if seld:
+            # the prescribed sill must be reachable inside the bounds with the deselected values ("it needs to be
+            # in a fitting range for the var and nugget bounds"): otherwise the ValueError of the setters is right
+            S = ctx.real("sill", lo=1.0, hi=2.0)
+            v, n = model.var, model.nugget
+            vb, nb = [0.1, 5.0, "oo"], [0.05, 0.5, "cc"]
+            if sel == "var:off":
+                ctx.require(in_bound(ctx, S - v, nb))
+            elif sel == "nug:off":
+                ctx.require(in_bound(ctx, S - n, vb))
+            else:
+                ctx.require(ctx.Or(ctx.And(ctx.gt(v, S), in_bound(ctx, S - nb[0], vb)),
+                                   ctx.And(ctx.le(v, S), in_bound(ctx, S - v, nb))))
     global _PRE_HOOK
     _PRE_HOOK = pre
     try:
-        run_fit(ctx, "Gaussian", 1, {}, sill, k, check=("state", "bounds"))
+        run_fit(ctx, "Gaussian", 1, seld, sill, k, check=("state", "bounds"))
     finally:
         _PRE_HOOK = None
 
